@@ -481,6 +481,12 @@ def F47(fil):
     return err > 1e-3, f"detrend_1d of an exact straight line of {n} samples: max |residual| = {err:.3g}"
 
 
+def F48(fil):
+    from sigpyproc.io import sigproc
+    out = outcome(lambda: sigproc.parse_radec(120000.0, -2e-05).dec.arcsec)
+    return out[0] == "exc", f"parse_radec(120000.0, -2e-05) -> {out}"
+
+
 ALL = {k: v for k, v in globals().items() if k.startswith("F") and k[1:].isdigit()}
 
 
